@@ -144,7 +144,7 @@ func TestVerifC06(t *testing.T) {
 	pushes := func() int { vip.mu.Lock(); defer vip.mu.Unlock(); return vip.Calls["pushstart"] }
 	allCanaries := []string{canary["alice"], canary["bob"], canary["root1"]}
 	methods := []string{"GET", "POST"}
-	origins := []string{"none", "cross-origin"}
+	origins := []string{"none", "cross-origin", "null-origin", "cross-referer"}
 	if verifThorough() {
 		methods = []string{"GET", "POST", "PUT", "DELETE", "HEAD"}
 		origins = []string{"none", "same-site", "cross-origin", "cross-referer", "null-origin", "malformed-origin"}
@@ -278,8 +278,11 @@ func TestVerifC06(t *testing.T) {
 		for _, cred := range shapes {
 			for _, m := range methods {
 				for _, o := range origins {
-					if !verifThorough() && o == "cross-origin" && !(cred.Valid && cred.Kind == "cookie") && (len(tg.path)+len(cred.Name))%4 != 0 {
+					if !verifThorough() && o != "none" && !(cred.Valid && cred.Kind == "cookie") && (o != "cross-origin" || (len(tg.path)+len(cred.Name))%4 != 0) {
 						continue // quick: cross-site matters for valid cookies; sample the rest
+					}
+					if !verifThorough() && (o == "null-origin" || o == "cross-referer") && m == "GET" {
+						continue
 					}
 					probe(tg, cred, m, o)
 				}
